@@ -24,7 +24,7 @@ class Words:
         return " ".join(out)
 
 
-def gen_body(rng, ident, allow=("para", "bullets", "numbered", "fenced", "indented", "note"), max_blocks=4, features=None):
+def gen_body(rng, ident, allow=("para", "bullets", "numbered", "fenced", "indented", "note", "table", "latexenv", "defs"), max_blocks=4, features=None):
     """Returns (lines, features).  Every word is a tracer `zq<ident>w<k>`; the expected rendering
     contains exactly these words once, in order."""
     w = Words(f"zq{ident}")
@@ -63,6 +63,20 @@ def gen_body(rng, ident, allow=("para", "bullets", "numbered", "fenced", "indent
                 if rng.random() < 0.3:
                     lines.append(f"  {w.take(2)}")
                     feats.add("list_item_continuation")
+        elif kind == "table":
+            # a Markdown table (rendered with FORD's striped-table extension): cell words row by row
+            ncol = rng.randint(2, 3)
+            lines.append("| " + " | ".join(w.take(1) for _ in range(ncol)) + " |")
+            lines.append("|" + "|".join(rng.choice(["---", ":---", "---:"]) for _ in range(ncol)) + "|")
+            for _ in range(rng.randint(1, 2)):
+                lines.append("| " + " | ".join(w.take(rng.randint(1, 2)) for _ in range(ncol)) + " |")
+        elif kind == "latexenv":
+            # a LaTeX environment (kept for MathJax by FORD's environment extension): its words stay, in order
+            env = rng.choice(["equation", "align", "equation*"])
+            lines += [f"\\begin{{{env}}}", w.take(rng.randint(1, 3)), f"\\end{{{env}}}"]
+        elif kind == "defs":
+            # definition list
+            lines += [w.take(1), ":   " + w.take(rng.randint(1, 3))]
         elif kind == "numbered":
             for i in range(rng.randint(2, 3)):
                 lines.append(f"{i + 1}. {w.take(rng.randint(1, 3))}")
@@ -128,6 +142,8 @@ def tracer_seq(text_or_lines):
 
 def html_text(h: str) -> str:
     """Visible text of an HTML fragment: block-level tags separate words, inline tags do not."""
+    # mdx_math keeps TeX source in <script type="math/tex">: MathJax displays it, so it is visible text
+    h = re.sub(r'(?is)<script type="math/tex[^"]*">(.*?)</script>', r" \1 ", h)
     h = re.sub(r"(?is)<(script|style)[^>]*>.*?</\1>", " ", h)
     h = re.sub(rf"(?i)</?(?:{BLOCK_TAGS})(?:\s[^>]*)?/?>", " ", h)
     h = re.sub(r"<[^>]+>", "", h)
